@@ -250,6 +250,18 @@ func c15Counting(r *kit.Run, idx int64, rng *rand.Rand, kind wrapKind) {
 	recs := make([][]callRec, callers)
 	var panicMsg atomic.Value
 	ctx := context.Background()
+	// Once: a third of the cases give every second caller a context that has
+	// already ended, and the single execution takes a moment: those callers
+	// still do not return before it has finished
+	endedCtx := ctx
+	if kind == wOnce && rng.IntN(3) == 0 {
+		c, cc := context.WithCancel(ctx)
+		cc()
+		endedCtx = c
+		if p.panicAt == 0 {
+			p.slowAt = 1
+		}
+	}
 	r.Eval()
 	kit.WithProcs(procs, func() {
 		bar := kit.NewBarrier(callers)
@@ -264,6 +276,10 @@ func c15Counting(r *kit.Run, idx int64, rng *rand.Rand, kind wrapKind) {
 					}
 				}()
 				bar.Wait()
+				ctx := ctx
+				if c%2 == 1 {
+					ctx = endedCtx
+				}
 				for j := 0; j < per; j++ {
 					t0 := kit.Stamp()
 					if p.panicAt > 0 {
@@ -290,7 +306,7 @@ func c15Counting(r *kit.Run, idx int64, rng *rand.Rand, kind wrapKind) {
 	calls := callers * per
 	execs := int(p.execs.Load())
 	desc := map[string]any{"wrapper": w.name, "callers": callers, "calls_per_caller": per, "limit_n": limitN, "speed": p.speed.String(),
-		"error_every": p.errEvery, "execution_panics": p.panicAt > 0, "gomaxprocs": procs, "executions": execs}
+		"error_every": p.errEvery, "execution_panics": p.panicAt > 0, "odd_callers_pass_an_ended_context": endedCtx != ctx, "gomaxprocs": procs, "executions": execs}
 	viol := func(kind, detail string) { r.Violation("C15/"+w.name+"/"+kind, idx, desc, detail, nil) }
 	if pm := panicMsg.Load(); pm != nil {
 		viol("panic", pm.(string))
